@@ -248,4 +248,107 @@ theorem C16_query (chain : Chain) (tips : List Nat) (x : Nat) :
 example : (([5, 9].foldl (pollPP (fun b => if b = 3 then some (.insert 1 10) else if b = 7 then some (.insert 2 11) else none)) {}).rows.map (·.ger)) = [1, 2] := by
   decide
 
+/-! ### FEP mode: the downloader reads the L2 GER map against the L1 info leaves -/
+
+/-- one FEP poll: the tip and what the L2 GER map answers at that moment -/
+abbrev FPoll := Nat × (Nat → Bool)
+
+def runFEP (leaves : List (Nat × Nat)) (polls : List FPoll) (f : FSt) : FSt :=
+  polls.foldl (fun acc p => pollFEP leaves p.2 acc p.1) f
+
+/-- what a row of the FEP table means: it is an L1 info leaf that the L2 GER map held when the block was polled -/
+def FepRowOK (leaves : List (Nat × Nat)) (polls : List FPoll) (r : Row) : Prop :=
+  ∃ p ∈ polls, p.1 = r.blockNum ∧ (r.idx, r.ger) ∈ leaves ∧ p.2 r.ger = true
+
+structure FInv (leaves : List (Nat × Nat)) (polls : List FPoll) (f : FSt) : Prop where
+  rows : ∀ r ∈ f.st.rows, FepRowOK leaves polls r
+  below : ∀ b ∈ f.st.blocks, b ≤ f.st.from_
+  rowBlocks : ∀ r ∈ f.st.rows, r.blockNum ∈ f.st.blocks
+
+theorem getLast?_mem {α} : ∀ (l : List α) (x : α), l.getLast? = some x → x ∈ l := by
+  intro l x h
+  exact List.mem_of_getLast? h
+
+theorem pollFEP_inv (leaves : List (Nat × Nat)) (done : List FPoll) (p : FPoll) (f : FSt)
+    (inv : FInv leaves done f) : FInv leaves (done ++ [p]) (pollFEP leaves p.2 f p.1) := by
+  have weaken : ∀ r, FepRowOK leaves done r → FepRowOK leaves (done ++ [p]) r := by
+    intro r ⟨q, hq, h⟩; exact ⟨q, by simp [hq], h⟩
+  unfold pollFEP
+  by_cases h : p.1 ≤ f.st.from_
+  · rw [if_pos h]
+    exact ⟨fun r hr => weaken r (inv.rows r hr), inv.below, inv.rowBlocks⟩
+  · rw [if_neg h]
+    have hnc : f.st.blocks.contains p.1 = false := by
+      rw [Bool.eq_false_iff]; intro hc
+      have hm : p.1 ∈ f.st.blocks := by simpa using hc
+      have := inv.below _ hm; omega
+    cases hl : (leaves.filter (fun l => decide (l.1 ≥ f.nextIndex) && p.2 l.2)).getLast? with
+    | none =>
+      simp only [hl, Option.map_none, processBlock, hnc, Bool.false_eq_true, if_false]
+      refine ⟨fun r hr => weaken r (inv.rows r hr), ?_, ?_⟩
+      · intro b hb
+        simp only [List.mem_append, List.mem_singleton] at hb
+        rcases hb with hb | hb
+        · have := inv.below b hb; simp only; omega
+        · subst hb; exact Nat.le_refl _
+      · intro r hr; simp only [List.mem_append]; exact Or.inl (inv.rowBlocks r hr)
+    | some l =>
+      have hmem := List.mem_filter.mp (getLast?_mem _ _ hl)
+      simp only [hl, Option.map_some, processBlock, hnc, Bool.false_eq_true, if_false]
+      refine ⟨?_, ?_, ?_⟩
+      · intro r hr
+        simp only [List.mem_append, List.mem_singleton] at hr
+        rcases hr with hr | hr
+        · exact weaken r (inv.rows r hr)
+        · subst hr
+          refine ⟨p, by simp, rfl, hmem.1, ?_⟩
+          have := hmem.2; simp only [Bool.and_eq_true] at this; exact this.2
+      · intro b hb
+        simp only [List.mem_append, List.mem_singleton] at hb
+        rcases hb with hb | hb
+        · have := inv.below b hb; simp only; omega
+        · subst hb; exact Nat.le_refl _
+      · intro r hr
+        simp only [List.mem_append, List.mem_singleton] at hr ⊢
+        rcases hr with hr | hr
+        · exact Or.inl (inv.rowBlocks r hr)
+        · subst hr; exact Or.inr rfl
+
+/-- **C16 (FEP, soundness)**: after any sequence of polls of the FEP downloader — any tips, the L2 GER map answering
+    differently at every poll — every row of the index is an L1 info leaf which the L2 GER map held at the poll of
+    the block the row is filed under. Nothing the L2 contract never held gets into the index. -/
+theorem C16_fep_sound (leaves : List (Nat × Nat)) (polls : List FPoll) :
+    ∀ r ∈ (runFEP leaves polls {}).st.rows, FepRowOK leaves polls r := by
+  have key : ∀ (todo done : List FPoll) (f : FSt), FInv leaves done f →
+      FInv leaves (done ++ todo) (runFEP leaves todo f) := by
+    intro todo
+    induction todo with
+    | nil => intro done f inv; simpa [runFEP] using inv
+    | cons p ps ih =>
+      intro done f inv
+      have := ih (done ++ [p]) _ (pollFEP_inv leaves done p f inv)
+      simpa [runFEP, List.append_assoc] using this
+  have h0 : FInv leaves [] ({} : FSt) := ⟨by simp, by simp, by simp⟩
+  have := key polls [] {} h0
+  simpa using this.rows
+
+/-- **C16 (FEP, choice)**: the row filed at a poll is the LAST injected leaf at or after the downloader's start index
+    (with the leaves in index order: the greatest injected index) -/
+theorem C16_fep_latest (leaves : List (Nat × Nat)) (inj : Nat → Bool) (f : FSt) (tip : Nat) (h : f.st.from_ < tip)
+    (hnew : tip ∉ f.st.blocks) :
+    (pollFEP leaves inj f tip).st.rows = f.st.rows ++
+      (match (leaves.filter (fun l => decide (l.1 ≥ f.nextIndex) && inj l.2)).getLast? with
+       | some l => [{ blockNum := tip, ger := l.2, idx := l.1 }]
+       | none => []) := by
+  have hnc : f.st.blocks.contains tip = false := by
+    rw [Bool.eq_false_iff]; intro hc; exact hnew (by simpa using hc)
+  unfold pollFEP
+  rw [if_neg (by omega)]
+  cases hl : (leaves.filter (fun l => decide (l.1 ≥ f.nextIndex) && inj l.2)).getLast? <;>
+    simp only [hl, Option.map_none, Option.map_some, processBlock, hnc, Bool.false_eq_true, if_false, List.append_nil]
+
+/-- non-vacuity: two polls, the GER map learns leaf 1 between them -/
+example : ((runFEP [(0, 100), (1, 101)] [(5, fun g => g == 100), (9, fun g => g == 100 || g == 101)] {}).st.rows.map
+    (fun r => (r.blockNum, r.ger, r.idx))) = [(5, 100, 0), (9, 101, 1)] := by decide
+
 end Aggkit.LastGER
